@@ -41,6 +41,7 @@ type Path struct {
 	ver     map[types.Object]int // assignment epoch of locals (copy on write)
 	defs    map[types.Object]string
 	bind    map[types.Object]ast.Expr // locals bound to a helper's returned expression by an inline frame (copy on write)
+	pe      *pathEnum                 // the enumerator that produced the path
 }
 
 // Formulas returns the formulas of all decisions on the path.
@@ -111,19 +112,21 @@ func lineOf(pr *Prog, n ast.Node) string {
 }
 
 type pathEnum struct {
-	callOrd     map[*ast.CallExpr]string
-	fd          *ast.FuncDecl
-	uniq        int
-	pure        func(call *ast.CallExpr) bool
-	atLeastOnce func(node ast.Node) bool // loops that are known to run at least once
-	info        *types.Info
-	ev          func(n ast.Node) []Event
-	cap         int
-	overflow    bool
-	unsup       []string
-	inLoop      int
-	frameBind   bool // applying the result binding of an inline frame
-	linkFields  bool // a boolean field stored once on a path is what later reads of it on that path see
+	callOrd         map[*ast.CallExpr]string
+	fd              *ast.FuncDecl
+	uniq            int
+	pure            func(call *ast.CallExpr) bool
+	atLeastOnce     func(node ast.Node) bool // loops that are known to run at least once
+	info            *types.Info
+	ev              func(n ast.Node) []Event
+	cap             int
+	overflow        bool
+	unsup           []string
+	inLoop          int
+	frameBind       bool // applying the result binding of an inline frame
+	closureDepth    int
+	noEntailedFacts bool
+	linkFields      bool // a boolean field stored once on a path is what later reads of it on that path see
 }
 
 const pathCap = 4096
@@ -148,7 +151,7 @@ func (pe *pathEnum) run(stmts []ast.Stmt) ([]Path, *pathEnum) {
 		pe.pure = func(call *ast.CallExpr) bool { return defaultPure(pe.info, call) }
 	}
 	pe.numberCalls(stmts)
-	start := []Path{{End: "fall"}}
+	start := []Path{{End: "fall", pe: pe}}
 	out := pe.seq(start, stmts)
 	return out, pe
 }
@@ -189,7 +192,7 @@ func (pe *pathEnum) events(n ast.Node) []Event {
 }
 
 func clonePath(p Path) Path {
-	q := Path{End: p.End, EndNode: p.EndNode, ver: p.ver, defs: p.defs, bind: p.bind}
+	q := Path{End: p.End, EndNode: p.EndNode, ver: p.ver, defs: p.defs, bind: p.bind, pe: p.pe}
 	q.Events = append([]Event(nil), p.Events...)
 	q.Conds = append([]CondStep(nil), p.Conds...)
 	return q
@@ -552,6 +555,20 @@ func (pe *pathEnum) stmt(in []Path, s ast.Stmt) []Path {
 			if term {
 				q.End, q.EndNode = "panic", s
 			}
+			// a call of a local that holds, on this path, a parameterless result-less closure: its body runs here
+			if fl := pe.closureCalled(&q, s); fl != nil && !term && pe.closureDepth < 2 {
+				pe.closureDepth++
+				for _, r := range pe.seq([]Path{q}, fl.Body.List) {
+					if r.End == "return" {
+						if rs, ok := r.EndNode.(*ast.ReturnStmt); ok && len(rs.Results) == 0 {
+							r.End, r.EndNode = "fall", nil
+						}
+					}
+					out = append(out, r)
+				}
+				pe.closureDepth--
+				continue
+			}
 			out = append(out, q)
 		}
 		return out
@@ -566,6 +583,9 @@ func (pe *pathEnum) stmt(in []Path, s ast.Stmt) []Path {
 			}
 			if as, ok := s.(*ast.AssignStmt); ok && pe.linkFields && as.Tok == token.ASSIGN {
 				pe.linkFieldStores(&q, as)
+			}
+			if as, ok := s.(*ast.AssignStmt); ok && len(as.Lhs) == len(as.Rhs) {
+				pe.bindClosures(&q, as)
 			}
 			out = append(out, q)
 		}
@@ -968,6 +988,40 @@ func (pe *pathEnum) infeasible(p Path) bool {
 		}
 		return false
 	}
+	// a value has one dynamic type: two type switches (or assertions) over the same subject cannot both take the
+	// arm of different types
+	isType := map[string]string{}
+	for _, f := range fs {
+		var lits []*FLit
+		var collect func(f Formula)
+		collect = func(f Formula) {
+			switch x := f.(type) {
+			case *FLit:
+				lits = append(lits, x)
+			case *FAnd:
+				collect(x.L)
+				collect(x.R)
+			}
+		}
+		collect(f)
+		for _, l := range lits {
+			if !strings.HasPrefix(l.Atom, "is:") || l.Dom != 2 || l.Mask != 2 {
+				continue
+			}
+			bar := strings.Index(l.Atom, "|")
+			if bar < 0 {
+				continue
+			}
+			typ, subj := l.Atom[3:bar], l.Atom[bar+1:]
+			if subj == "" {
+				continue
+			}
+			if prev, ok := isType[subj]; ok && prev != typ {
+				return true
+			}
+			isType[subj] = typ
+		}
+	}
 	return !satisfiable(fs)
 }
 
@@ -1065,9 +1119,52 @@ func callsIn(n ast.Node) []*ast.CallExpr {
 type Facts struct {
 	obj  map[types.Object]int
 	expr map[string]int
+	// the decisions of the window as a path, for what they entail beyond the syntactic facts
+	win  *Path
+	memo map[types.Object]int
 }
 
-func (f *Facts) Obj(o types.Object) int { return f.obj[o] }
+// Obj: +1 (true / non-nil), -1 (false / nil) or 0 (not known) for a local. First the facts read off the branch
+// conditions that test the variable itself; when those say nothing, what the decisions up to the end of the window
+// entail about it as formulas (a flag that was defined from the variable, `installed := err == nil && done`, and
+// then tested decides the variable too).
+func (f *Facts) Obj(o types.Object) int {
+	if v := f.obj[o]; v != 0 || f.win == nil || f.win.pe == nil || o == nil {
+		return v
+	}
+	if v, ok := f.memo[o]; ok {
+		return v
+	}
+	v := 0
+	if vr, isVar := o.(*types.Var); isVar && !vr.IsField() {
+		pe := f.win.pe
+		id := &ast.Ident{Name: o.Name()}
+		pe.info.Uses[id] = o
+		x := pe.xlat(f.win.ver, f.win.defs)
+		if isBoolType(o.Type()) {
+			fm := x.formula(id)
+			switch {
+			case f.win.Entails(fm):
+				v = +1
+			case f.win.Entails(fnot(fm)):
+				v = -1
+			}
+		} else if t, ok := x.term(id); ok && t != "nil" {
+			switch o.Type().Underlying().(type) {
+			case *types.Pointer, *types.Interface, *types.Map, *types.Slice, *types.Signature, *types.Chan:
+				switch {
+				case f.win.Entails(&FLit{eqAtom("nil", t), 2, 1}):
+					v = +1
+				case f.win.Entails(&FLit{eqAtom("nil", t), 2, 2}):
+					v = -1
+				}
+			}
+		}
+		delete(pe.info.Uses, id)
+	}
+	f.memo[o] = v
+	return v
+}
 
 // Expr returns what is known about the truth of a pure boolean leaf, given as
 // it would be printed by types.ExprString (e.g. `e.GetId() == 0`).
@@ -1077,7 +1174,22 @@ func (f *Facts) Expr(s string) int { return f.expr[s] }
 // after event index `from` (use -1 for the whole path) and before event index
 // `upto` (use len(Events) for "until the end").
 func factsAfter(info *types.Info, p Path, from, upto int) *Facts {
-	f := &Facts{obj: map[types.Object]int{}, expr: map[string]int{}}
+	f := &Facts{obj: map[types.Object]int{}, expr: map[string]int{}, memo: map[types.Object]int{}}
+	if p.pe != nil && !p.pe.noEntailedFacts {
+		w := Path{End: p.End, ver: p.ver, defs: p.defs, bind: p.bind, pe: p.pe}
+		for _, cs := range p.Conds {
+			if cs.At <= upto {
+				w.Conds = append(w.Conds, cs)
+				if cs.Ver != nil {
+					w.ver = cs.Ver
+				}
+			}
+		}
+		if len(w.Conds) == len(p.Conds) {
+			w.ver = p.ver
+		}
+		f.win = &w
+	}
 	for _, cs := range p.Conds {
 		if cs.At <= from || cs.At > upto {
 			continue
@@ -1272,4 +1384,62 @@ func formulaMentions(f Formula, atom string) bool {
 		return formulaMentions(x.X, atom)
 	}
 	return false
+}
+
+// bindClosures: `f = func() { … }` (no parameters, no results) — f holds that closure on the rest of the path, and is
+// not nil.
+func (pe *pathEnum) bindClosures(q *Path, as *ast.AssignStmt) {
+	for i, l := range as.Lhs {
+		id, ok := ast.Unparen(l).(*ast.Ident)
+		if !ok {
+			continue
+		}
+		o := pe.info.ObjectOf(id)
+		if o == nil {
+			continue
+		}
+		fl, isLit := ast.Unparen(as.Rhs[i]).(*ast.FuncLit)
+		nb := map[types.Object]ast.Expr{}
+		for k, v := range q.bind {
+			nb[k] = v
+		}
+		if !isLit {
+			if _, had := nb[o]; had {
+				if _, wasLit := nb[o].(*ast.FuncLit); wasLit {
+					delete(nb, o) // reassigned to something else
+					q.bind = nb
+				}
+			}
+			continue
+		}
+		if fl.Type.Params != nil && len(fl.Type.Params.List) > 0 {
+			continue
+		}
+		if fl.Type.Results != nil && len(fl.Type.Results.List) > 0 {
+			continue
+		}
+		nb[o] = fl
+		q.bind = nb
+		if t, ok := pe.xlatP(q).term(id); ok && t != "nil" {
+			q.Conds = append(q.Conds, CondStep{Label: "assign", At: len(q.Events), F: &FLit{eqAtom("nil", t), 2, 1}, Ver: q.ver})
+		}
+	}
+}
+
+// closureCalled: s is `f()` for a local f that holds a closure on this path.
+func (pe *pathEnum) closureCalled(q *Path, s *ast.ExprStmt) *ast.FuncLit {
+	call, ok := ast.Unparen(s.X).(*ast.CallExpr)
+	if !ok || len(call.Args) != 0 {
+		return nil
+	}
+	id, ok := ast.Unparen(call.Fun).(*ast.Ident)
+	if !ok {
+		return nil
+	}
+	o := pe.info.ObjectOf(id)
+	if o == nil {
+		return nil
+	}
+	fl, _ := q.bind[o].(*ast.FuncLit)
+	return fl
 }
